@@ -191,6 +191,42 @@ def check_call_join(P, ctx):
     ctx.floor(rule, 7)
 
 
+def check_with_locks(P, ctx):
+    """`with (m in mutex)` enters through start_in: whenever the object's type has a Start.start member, start_in calls it — on
+    every path (a path that returns without calling it lets a second thread into the critical section), and Mutex's start / stop
+    members are its lock / unlock."""
+    rule = 'C13.with-locks'
+    fn = P.fn('start_in')
+    g = P.cfg(fn)
+    ctx.fn(fn)
+    NX = util.Norm(P, fn, expand_locals=True, inline=False)
+    calls = [n for n in g.live() if n['expr'] is not None and any(ir.callee_name(c) is None and ir.top_nocast(c[1])[0] == 'arrow' and ir.top_nocast(c[1])[2] == 'start'
+                                                                 for c in ir.calls(n['expr']))]
+    # the only ways round the call: no Start instance, or no start member
+    allowed = []
+    for n in g.live():
+        if n['kind'] != 'cond':
+            continue
+        c = NX.canon(n['expr'])
+        if c[0] == 'call' and ir.callee_name(c) in ('instance', 'type_instance'):
+            allowed.append((n['id'], False))
+        elif c[0] == 'arrow' and c[2] == 'start':
+            allowed.append((n['id'], False))
+        elif c[0] == 'bin' and c[1] in ('==', '!=') and ('int', 0) in (c[2], c[3]):
+            o = c[3] if c[2] == ('int', 0) else c[2]
+            if (o[0] == 'call' and ir.callee_name(o) in ('instance', 'type_instance')) or (o[0] == 'arrow' and o[2] == 'start'):
+                allowed.append((n['id'], c[1] == '=='))
+    ok = len(calls) >= 1 and g.exit not in g.reach_from(g.entry, cut_nodes=[n['id'] for n in calls], cut_edges=allowed)
+    ctx.check(ok, rule, 'start_in', site(fn), 'start_in calls the Start.start member on every path on which the object has one')
+    st = P.slot('Mutex', 'Start', 'start', required=False)
+    sp = P.slot('Mutex', 'Start', 'stop', required=False)
+    lk = P.slot('Mutex', 'Lock', 'lock', required=False)
+    ul = P.slot('Mutex', 'Lock', 'unlock', required=False)
+    ctx.check(st is not None and st == lk and sp is not None and sp == ul, rule, 'Mutex.Start', site(P.fn(lk)) if lk else '',
+              'entering / leaving a with block on a Mutex is its lock / unlock', ['start=%s stop=%s lock=%s unlock=%s' % (st, sp, lk, ul)])
+    ctx.floor(rule, 2)
+
+
 def run(ctx, load):
     P = load(None, 'default')
     ctx.stats['units'] = set(P.units)
@@ -198,6 +234,7 @@ def run(ctx, load):
     check_shared_state(P, ctx)
     check_thread_run(P, ctx)
     check_call_join(P, ctx)
+    check_with_locks(P, ctx)
 
 
 EXPLANATION = (
